@@ -222,10 +222,12 @@ htp_status_t htp_parse_response_header_generic(htp_connp_t *connp, htp_header_t 
         }
     }
     // Ignore LWS after field-content.
-    prev = value_end - 1;
-    while ((prev > value_start) && (htp_is_lws(data[prev]))) {
-        prev--;
-        value_end--;
+    if (value_end > 0) {
+        prev = value_end - 1;
+        while ((prev > value_start) && (htp_is_lws(data[prev]))) {
+            prev--;
+            value_end--;
+        }
     }
 
     // Now extract the name and the value.
